@@ -18,6 +18,36 @@ def _has(text, pat):
     return re.search(_ws(pat), text, re.S) is not None
 
 
+def _squash(text):
+    return re.sub(r"\s+", "", text)
+
+
+def _block_after(text, start):
+    """inner text of the first `{…}` block that opens at or after `start` (None if unbalanced)"""
+    i = text.find("{", start)
+    if i < 0:
+        return None
+    depth = 0
+    for j in range(i, len(text)):
+        if text[j] == "{":
+            depth += 1
+        elif text[j] == "}":
+            depth -= 1
+            if depth == 0:
+                return text[i + 1:j]
+    return None
+
+
+def _fn_body_is(text, sig, body):
+    """the function whose signature starts with `sig` consists of exactly the statement(s) `body`
+    (whitespace-insensitive): no other path through it"""
+    m = re.search(_ws(sig), text, re.S)
+    if not m:
+        return False
+    b = _block_after(text, m.end())
+    return b is not None and _squash(b) == _squash(body)
+
+
 def _lean(facts):
     return "\n".join("def %s : Bool := %s" % (k, "true" if v else "false") for k, v in facts)
 
@@ -37,6 +67,9 @@ def _controller(src):
         ("rtRegisterInserts", _has(reg, "self . arbiters . insert ( id , arb ) ;")),
         ("rtDeregisterRemoves", _has(dereg, "self . arbiters . remove ( & id ) ;")),
         ("rtCtrlLoopsUntilPending", _has(body, "loop { match ready ! ( self . cmd_rx . poll_recv ( cx ) )")),
+        # the arms do nothing else: every registration is recorded, whatever state the controller is in
+        ("rtRegisterOnlyInserts", _squash(_block_after(reg, 0) or "") == _squash("self.arbiters.insert(id, arb);")),
+        ("rtDeregisterOnlyRemoves", _squash(_block_after(dereg, 0) or "") == _squash("self.arbiters.remove(&id);")),
     ]
     return _lean(facts), body
 
@@ -116,8 +149,18 @@ def _runner(src):
         ("rtArbiterSpawnSends", _has(ab, "self . tx . send ( ArbiterCommand :: Execute ( Box :: pin ( future ) ) ) . is_ok ( )")),
         ("rtArbiterStopSends", _has(ab, "self . tx . send ( ArbiterCommand :: Stop ) . is_ok ( )")),
         ("rtJoinJoinsThread", _has(ab, "self . thread_handle . join ( )")),
+        # … and that is all these functions do: the command channel is the only path to the loop
+        # (no same-thread short cut), and a function is sent as the future `async { f() }`
+        ("rtHandleSpawnOnlySends", _fn_body_is(hb, "pub fn spawn < Fut > ( & self , future : Fut ) -> bool",
+                                               "self.tx.send(ArbiterCommand::Execute(Box::pin(future))).is_ok()")),
+        ("rtHandleSpawnFnOnlySpawn", _fn_body_is(hb, "pub fn spawn_fn < F > ( & self , f : F ) -> bool", "self.spawn(async { f() })")),
+        ("rtHandleStopOnlySends", _fn_body_is(hb, "pub fn stop ( & self ) -> bool", "self.tx.send(ArbiterCommand::Stop).is_ok()")),
+        ("rtArbiterSpawnOnlySends", _fn_body_is(ab, "pub fn spawn < Fut > ( & self , future : Fut ) -> bool",
+                                                "self.tx.send(ArbiterCommand::Execute(Box::pin(future))).is_ok()")),
+        ("rtArbiterSpawnFnOnlySpawn", _fn_body_is(ab, "pub fn spawn_fn < F > ( & self , f : F ) -> bool", "self.spawn(async { f() })")),
+        ("rtArbiterStopOnlySends", _fn_body_is(ab, "pub fn stop ( & self ) -> bool", "self.tx.send(ArbiterCommand::Stop).is_ok()")),
     ]
-    return _lean(facts), body + hb
+    return _lean(facts), body + hb + ab
 
 
 def _in_new_system(src):
